@@ -245,6 +245,24 @@ def sg_step(st, op, acc, hist):
     return changed(st)
 
 
+_NOISE = {}
+
+
+def noise_for(names):
+    """NoiseModel with a depolarising and a Pauli channel on every gate name present (built once per name set)."""
+    k = tuple(names)
+    if k not in _NOISE:
+        from tangelo.linq.noisy_simulation import NoiseModel
+        nm = NoiseModel()
+        for nme in names:
+            if nme in ("MEASURE", "CMEASURE"):
+                continue
+            nm.add_quantum_error(nme, "depol", 0.1)
+            nm.add_quantum_error(nme, "pauli", [0.05, 0.0, 0.02])
+        _NOISE[k] = nm
+    return _NOISE[k]
+
+
 def sg_check(st, hist, acc):
     from tangelo.linq import translate_circuit, get_backend
     from tangelo.toolboxes.operators import QubitOperator
@@ -291,6 +309,13 @@ def sg_check(st, hist, acc):
                 be.simulate(c, return_statevector=True)
         with Unchanged(acc, hist, "get_expectation_value:cirq", [c]):
             get_backend("cirq").get_expectation_value(QubitOperator("Z0", 1.0) + QubitOperator("X0", 0.5), c)
+        # translating / simulating with a noise model attached (both channel types on every gate name present) is read-only too
+        if not n_meas and not any(isinstance(g[3], str) and g[3] != "" for g in d):
+            nm = noise_for(sorted(m["counts"]))
+            with Unchanged(acc, hist, "translate:cirq+noise", [c]):
+                translate_circuit(c, "cirq", output_options={"noise_model": nm})
+            with Unchanged(acc, hist, "simulate:cirq+noise", [c]):
+                get_backend("cirq", n_shots=1, noise_model=nm).simulate(c)
     if c.width <= 3 and c.size <= 3 and len(hist) <= 3:
         with Unchanged(acc, hist, "simulate:sympy", [c]):
             get_backend("sympy").simulate(c)
@@ -298,7 +323,7 @@ def sg_check(st, hist, acc):
                      ("eq", lambda: c == c), ("entangled", c.get_entangled_indices)):
         with Unchanged(acc, hist, name, [c]):
             fn()
-    acc.transitions += 11
+    acc.transitions += 13
 
 
 # ---------------------------------------------------------------------------------------------------------------------
